@@ -6,6 +6,8 @@ import PyrollModel.Gen.C01Hooks
   Mirrors `pyroll/core/hooks.py`:
   * `Hook.__get__` on a class (`getattr(C, "h")`): the hook found along `C.__mro__` is returned if it is owned by
     `C`, otherwise a NEW empty `Hook` is created on `C` (lazy per-subclass hook object)            → `touch`
+  * `Hook.__get__` of the hook object of a BASE class asked for `C` although `C` may carry its own (`super(K, x).h`,
+    `Base.__dict__["h"].__get__(x, C)`)                                                              → `askAs`
   * `Hook._yield_functions_from(attr)`: walk over `owner.__mro__`, `getattr(s, name, None)` (which again creates
     hook objects lazily), `reversed(store)`                                                          → `walk`
   * `Hook.functions_gen`: the six stores in the order first_wrappers, wrappers, last_wrappers, first_functions,
@@ -19,7 +21,9 @@ import PyrollModel.Gen.C01Hooks
     `Gen.C01.Hooks.functionsGenOrder` → `implTiers` (order of the six walks of `functions_gen`),
     `Gen.C01.Hooks.yieldReversed`     → `orient` (`reversed(...)` in `_yield_functions_from`),
     `Gen.C01.Hooks.addStores`         → `addStore?` / `HookObj.push` (which store `add_function` appends to),
-    `Gen.C01.Hooks.removeStores`      → `removeHits` / `HookObj.erase` (which stores `remove_function` looks into).
+    `Gen.C01.Hooks.removeStores`      → `removeHits` / `HookObj.erase` (which stores `remove_function` looks into),
+    `Gen.C01.Hooks.getOwnerReuse`     → `ownerReuse` / `askAs` (a hook asked with another owner: the hook object that class
+                                        carries answers, a new one is created only when it carries none).
   The specification side (`tiers6`, `specRegs`, `specOrder`) is hand-written and does not depend on the generated module.
 
   One hook name is modelled (hooks of different names do not interact).  Classes are natural numbers, the
@@ -156,6 +160,21 @@ def touch (st : State) (s : Cls) : State :=
   match lookup st s with
   | none => st
   | some k => if k = s then st else { st with own := fun x => if x = s then some {} else st.own x }
+
+/-- does `Hook.__get__`, asked with an owner that is not its own, hand the question to the hook object that owner class
+    carries in its own `__dict__` (creating a new one only when the class carries none)?  GENERATED fact, read from the
+    class-level part of `Hook.__get__`; `false` = a new hook object is created and put on the owner class every time. -/
+def ownerReuse : Bool := Gen.C01.Hooks.getOwnerReuse
+
+/-- `Hook.__get__(x, c)` of the hook object in the `__dict__` of class `s`, whatever made python call it with that owner:
+    plain attribute lookup (`touch`: then `s` is the first class of `c.__mro__` that carries a hook object, so `c` carries
+    none unless `s = c`), `super(K, x).h`, or the explicit descriptor call `S.__dict__["h"].__get__(x, C)`.  Its own class:
+    nothing happens.  Another class: with `reuse` the hook object `c` carries already answers, and only a class that
+    carries none gets a new empty one; without it a new empty hook object REPLACES whatever `c` carries. -/
+def askAs (reuse : Bool) (st : State) (s c : Cls) : State :=
+  if s = c then st
+  else if reuse && (st.own c).isSome then st
+  else { st with own := fun x => if x = c then some {} else st.own x }
 
 def storeOf (st : State) (s : Cls) (w : Bool) (t : Tier) : List HF :=
   match st.own s with
